@@ -202,7 +202,18 @@ class Ctx:
         b = np.ascontiguousarray(a.astype(self.real_t))
         if exact and not np.array_equal(b.astype(F64), a):
             raise AssertionError(f"harness premise broken: input not representable in {self.dtype} {self.meta}")
-        return b
+        return self._maybe_view(b)
+
+    def _maybe_view(self, b):
+        """on a third of the noise-leg arrays: the same values as the interior view of a padded parent (non-contiguous),
+        as a caller slicing a halo off a larger array would pass them"""
+        if self.leg != "noise" or b.ndim < 2 or self.rng.random() > 0.33:
+            return b
+        parent = util.sentinel_like(self.rng, tuple(n + 2 for n in b.shape), b.dtype).copy()
+        v = parent[tuple(slice(1, -1) for _ in b.shape)]
+        v[...] = b
+        self.rec.count("noncontiguous_array_arguments")
+        return v
 
     def scalar(self, x):
         """scalar kernel argument, alternately as real_t (what the simulators pass) and as a plain python float"""
@@ -214,7 +225,7 @@ class Ctx:
         return float(x)
 
     def sentinel(self, lead=()):
-        return util.sentinel_like(self.rng, tuple(lead) + self.shape, self.real_t)
+        return self._maybe_view(util.sentinel_like(self.rng, tuple(lead) + self.shape, self.real_t))
 
     def aux(self, lead, exact):
         sh = tuple(lead) + self.shape
